@@ -41,6 +41,10 @@ JSON_MUTATIONS = [
     ("not-additional", lambda rng: {"not": {"additionalProperties": False}}, True),
     ("not-contains", lambda rng: {"not": {"contains": {"type": "number"}}}, True),
     ("not-unique", lambda rng: {"not": {"uniqueItems": True}}, True),
+    # a keyword without inverter after one whose inversion is the empty schema (format), in either order, also below oneOf
+    ("not-format-then-uninvertible", lambda rng: {"not": dict([("format", "email"), rng.choice([("uniqueItems", True), ("minProperties", 1), ("contentMediaType", "text/plain")])])}, True),
+    ("not-uninvertible-then-format", lambda rng: {"not": dict([rng.choice([("uniqueItems", True), ("minProperties", 1)]), ("format", "email")])}, True),
+    ("one-of-format-then-uninvertible", lambda rng: {"oneOf": [{"format": "date", "minProperties": 1}, {"type": "null"}]}, True),
     ("contradictory-length", lambda rng: {"type": "string", "minLength": 3, "maxLength": 1}, False),
     ("contradictory-bounds", lambda rng: {"type": "number", "minimum": 5, "maximum": 1}, False),
     ("contradictory-items", lambda rng: {"type": "array", "minItems": 3, "maxItems": 1}, False),
@@ -182,6 +186,7 @@ def xsd_mutations(rng, text):
     outs.append(("union-type", text.replace("</xs:schema>", '<xs:simpleType name="ut"><xs:union memberTypes="xs:integer xs:string" /></xs:simpleType></xs:schema>'), True))
     outs.append(("unknown-builtin", text.replace('type="xs:string"', 'type="xs:anyURI"', 1), False))
     outs.append(("facet-pattern", text.replace("</xs:schema>", '<xs:simpleType name="pt"><xs:restriction base="xs:string"><xs:pattern value="[a-z]+" /></xs:restriction></xs:simpleType></xs:schema>'), False))
+    outs.append(("enumeration-then-other-facet", text.replace("</xs:schema>", '<xs:simpleType name="ef"><xs:restriction base="xs:string"><xs:enumeration value="red" /><xs:enumeration value="green" /><xs:maxLength value="5" /></xs:restriction></xs:simpleType></xs:schema>'), True))
     outs.append(("facet-range", text.replace("</xs:schema>", '<xs:simpleType name="rt"><xs:restriction base="xs:integer"><xs:minInclusive value="3" /></xs:restriction></xs:simpleType></xs:schema>'), True))
     outs.append(("facet-length-int", text.replace("</xs:schema>", '<xs:simpleType name="rl"><xs:restriction base="xs:token"><xs:length value="3" /></xs:restriction></xs:simpleType></xs:schema>'), True))
     outs.append(("default-attr", text.replace('<xs:attribute name="at', '<xs:attribute default="d" name="at', 1), False))
